@@ -113,7 +113,11 @@ def evaluate(ctx, name, cases):
 def main(ctx):
     ctx.rule = ("per operator generator (harness/onnxref/src/bin/generators.rs): random shapes rank<=4, dims in 0..5, data i32/i64/f32(integer "
                 "valued)/bool as run inputs or initializers, attributes incl. negative axes, steps, modes, keepdims, opset variants "
-                "(attribute vs input parameters), optimisation on/off, ~2% invalid/extreme parameters; non-trivial = every case (tags "
+                "(attribute vs input parameters), optimisation on/off, ~2% invalid/extreme parameters; about 1 case in 9 is a LONG-LANE variant "
+                "(one axis of 17..70, other extents 1..2; TopK with a 3-letter alphabet so that ties straddle k; ArgMax/ArgMin, Reduce*, "
+                "CumSum, Gather*, ScatterElements, Slice, Concat, Split, Transpose, element-wise); binary operators have an EDGE-ALGEBRA "
+                "family (zero results, negative operands, dividends that are exact multiples k*divisor of divisors of both signs incl. 0, "
+                "equal comparison operands) and Div/Mod a dedicated generator; non-trivial = every case (tags "
                 "ending in -empty have an empty first input); distinct = distinct case lines")
     ctx.trusted += ["the ONNX operator specification text as transcribed into the *_spec theorems (Props_C15.v)",
                     "protobuf writer + canonical printing in harness/onnxref (trusted to build the node it names)",
